@@ -24,16 +24,16 @@ type vssEvent struct {
 // vector variants and share variants (both orders, duplicates, mixed). Oracle (C08): End()
 // returns keys only if the FIRST vector delivered was a valid vector of t+1 G2 points and the
 // FIRST share delivered is a valid scalar matching it; never a panic.
-func PlainVSS(run *ev.Run, n, t, depth int) {
-	cfg := &dkgsys.Config{Proto: dkgsys.FVSS, N: n, T: t, Dealer: 0, Seed: run.Seed}
-	dealer, err := dkgsys.NewNode(dkgsys.FVSS, n, t, 0, 0)
+func PlainVSS(run *ev.Run, n, t, me, dealerIdx, depth int) {
+	cfg := &dkgsys.Config{Proto: dkgsys.FVSS, N: n, T: t, Dealer: dealerIdx, Seed: run.Seed}
+	other := 3 - me - dealerIdx // a third participant (n >= 3)
+	dealer, err := dkgsys.NewNode(dkgsys.FVSS, n, t, dealerIdx, dealerIdx)
 	if err != nil {
 		run.Fatal("%v", err)
 	}
-	if err := dealer.Inst.Start(dkgsys.SeedFor(run.Seed, 0)); err != nil {
+	if err := dealer.Inst.Start(dkgsys.SeedFor(run.Seed, dealerIdx)); err != nil {
 		run.Fatal("%v", err)
 	}
-	const me = 1
 	var vec, share []byte
 	for _, m := range dealer.Rec.Drain() {
 		if m.Bcast() {
@@ -44,33 +44,33 @@ func PlainVSS(run *ev.Run, n, t, depth int) {
 	}
 	var alpha []vssEvent
 	mut := func(b []byte) []byte { return append([]byte{}, b...) }
-	alpha = append(alpha, vssEvent{"vec:honest", true, 0, vec})
-	for _, v := range []string{"badflags", "infbit", "nonreduced", "offcurve", "nong2", "nong2last", "otherpoly", "infa0", "swapcoef"} {
-		alpha = append(alpha, vssEvent{"vec:" + v, true, 0, dkgsys.MutateVector(mut(vec), v, cfg)})
+	alpha = append(alpha, vssEvent{"vec:honest", true, dealerIdx, vec})
+	for _, v := range []string{"badflags", "infbit", "nonreduced", "offcurve", "nong2", "nong2last", "nong2cancel", "otherpoly", "infa0", "swapcoef"} {
+		alpha = append(alpha, vssEvent{"vec:" + v, true, dealerIdx, dkgsys.MutateVector(mut(vec), v, cfg)})
 	}
 	alpha = append(alpha,
-		vssEvent{"vec:short", true, 0, mut(vec)[:len(vec)-1]},
-		vssEvent{"vec:long", true, 0, append(mut(vec), 0)},
-		vssEvent{"vec:tagonly", true, 0, []byte{1}},
-		vssEvent{"vec:onepoint", true, 0, mut(vec)[:97]},
-		vssEvent{"vec:dupcoef", true, 0, append(mut(vec)[:97], vec[1:97]...)},
-		vssEvent{"bcast:empty", true, 0, []byte{}},
-		vssEvent{"bcast:unktag", true, 0, []byte{9, 1, 2}},
-		vssEvent{"vec:fromother", true, 2, vec},
-		vssEvent{"share:honest", false, 0, share},
+		vssEvent{"vec:short", true, dealerIdx, mut(vec)[:len(vec)-1]},
+		vssEvent{"vec:long", true, dealerIdx, append(mut(vec), 0)},
+		vssEvent{"vec:tagonly", true, dealerIdx, []byte{1}},
+		vssEvent{"vec:onepoint", true, dealerIdx, mut(vec)[:97]},
+		vssEvent{"vec:dupcoef", true, dealerIdx, append(mut(vec)[:97], vec[1:97]...)},
+		vssEvent{"bcast:empty", true, dealerIdx, []byte{}},
+		vssEvent{"bcast:unktag", true, dealerIdx, []byte{9, 1, 2}},
+		vssEvent{"vec:fromother", true, other, vec},
+		vssEvent{"share:honest", false, dealerIdx, share},
 	)
 	for _, v := range []string{"zero", "ger", "allff", "wrong"} {
-		alpha = append(alpha, vssEvent{"share:" + v, false, 0, dkgsys.MutateScalar(mut(share), 1, v)})
+		alpha = append(alpha, vssEvent{"share:" + v, false, dealerIdx, dkgsys.MutateScalar(mut(share), 1, v)})
 	}
 	wt := mut(share)
 	wt[0] = 7
 	alpha = append(alpha,
-		vssEvent{"share:short", false, 0, mut(share)[:len(share)-1]},
-		vssEvent{"share:long", false, 0, append(mut(share), 0)},
-		vssEvent{"share:tagonly", false, 0, []byte{0}},
-		vssEvent{"share:empty", false, 0, []byte{}},
-		vssEvent{"share:wrongtag", false, 0, wt},
-		vssEvent{"share:fromother", false, 2, share},
+		vssEvent{"share:short", false, dealerIdx, mut(share)[:len(share)-1]},
+		vssEvent{"share:long", false, dealerIdx, append(mut(share), 0)},
+		vssEvent{"share:tagonly", false, dealerIdx, []byte{0}},
+		vssEvent{"share:empty", false, dealerIdx, []byte{}},
+		vssEvent{"share:wrongtag", false, dealerIdx, wt},
+		vssEvent{"share:fromother", false, other, share},
 	)
 	// crafted dealing: a valid first coefficient g2^k followed by undecodable coefficients, and the
 	// share k itself (matches the "polynomial" if the undecoded coefficients are treated as identity)
@@ -88,14 +88,14 @@ func PlainVSS(run *ev.Run, n, t, depth int) {
 		for j := 0; j < t; j++ {
 			v = append(v, bad...)
 		}
-		alpha = append(alpha, vssEvent{"vec:a0+" + name, true, 0, v})
+		alpha = append(alpha, vssEvent{"vec:a0+" + name, true, dealerIdx, v})
 	}
 	sort.Slice(alpha, func(i, j int) bool { return alpha[i].Name < alpha[j].Name })
-	alpha = append(alpha, vssEvent{"share:a0", false, 0, append([]byte{0}, k7...)})
+	alpha = append(alpha, vssEvent{"share:a0", false, dealerIdx, append([]byte{0}, k7...)})
 	// reference judgement of each event
 	vecValid := map[string][]refbls.G2{}
 	for _, e := range alpha {
-		if e.Bcast && e.From == 0 && strings.HasPrefix(e.Name, "vec:") {
+		if e.Bcast && e.From == dealerIdx && strings.HasPrefix(e.Name, "vec:") {
 			if v, ok := parseVector(e.Data, t); ok {
 				vecValid[e.Name] = v
 			}
@@ -103,7 +103,7 @@ func PlainVSS(run *ev.Run, n, t, depth int) {
 	}
 	shareVal := map[string]*big.Int{}
 	for _, e := range alpha {
-		if !e.Bcast && e.From == 0 && len(e.Data) == 33 && e.Data[0] == 0 {
+		if !e.Bcast && e.From == dealerIdx && len(e.Data) == 33 && e.Data[0] == 0 {
 			s := refbls.ScalarFromBytes(e.Data[1:])
 			if s.Sign() != 0 && s.Cmp(refbls.R) < 0 {
 				shareVal[e.Name] = s
@@ -144,13 +144,13 @@ func PlainVSS(run *ev.Run, n, t, depth int) {
 		}
 	}
 	gen(nil)
-	run.Set(fmt.Sprintf("plainvss_n%d_t%d", n, t), map[string]any{"alphabet": len(alpha), "depth": depth, "histories": len(hist)})
+	run.Set(fmt.Sprintf("plainvss_n%d_t%d_me%d_dealer%d", n, t, me, dealerIdx), map[string]any{"alphabet": len(alpha), "depth": depth, "histories": len(hist)})
 	outcomes := map[string]int{}
 	var omu = make(chan struct{}, 1)
 	omu <- struct{}{}
 	ev.Par(len(hist), func(hi int) {
 		h := hist[hi]
-		nd, _ := dkgsys.NewNode(dkgsys.FVSS, n, t, me, 0)
+		nd, _ := dkgsys.NewNode(dkgsys.FVSS, n, t, me, dealerIdx)
 		_ = nd.Inst.Start(dkgsys.SeedFor(run.Seed, me))
 		names := make([]string, len(h))
 		firstVec, firstShare := "", ""
@@ -158,10 +158,10 @@ func PlainVSS(run *ev.Run, n, t, depth int) {
 		for k, ai := range h {
 			e := alpha[ai]
 			names[k] = e.Name
-			if e.From == 0 && e.Bcast && firstVec == "" && strings.HasPrefix(e.Name, "vec:") {
+			if e.From == dealerIdx && e.Bcast && firstVec == "" && strings.HasPrefix(e.Name, "vec:") {
 				firstVec = e.Name
 			}
-			if e.From == 0 && !e.Bcast && firstShare == "" {
+			if e.From == dealerIdx && !e.Bcast && firstShare == "" {
 				firstShare = e.Name
 			}
 			if p := dkgsys.Safe(func() {
@@ -175,7 +175,7 @@ func PlainVSS(run *ev.Run, n, t, depth int) {
 				break
 			}
 		}
-		rep := map[string]any{"protocol": "FeldmanVSS", "n": n, "t": t, "receiver": me, "history": names}
+		rep := map[string]any{"protocol": "FeldmanVSS", "n": n, "t": t, "receiver": me, "dealer": dealerIdx, "history": names}
 		var sk crypto.PrivateKey
 		var gpk crypto.PublicKey
 		var pks []crypto.PublicKey
@@ -206,7 +206,7 @@ func PlainVSS(run *ev.Run, n, t, depth int) {
 		outcomes[fmt.Sprintf("%s/expected-good=%v", out, good)]++
 		omu <- struct{}{}
 		if len(h) >= 2 {
-			run.Distinct(fmt.Sprintf("vss/%d/%d/%v", n, t, h))
+			run.Distinct(fmt.Sprintf("vss/%d/%d/%d/%d/%v", n, t, me, dealerIdx, h))
 		}
 		if out == "other" {
 			run.Violation("end-unexpected:fvss:"+logClass(eerr.Error()), fmt.Sprintf("plain Feldman VSS history %v: End() returned %v", names, eerr), rep)
@@ -236,7 +236,7 @@ func PlainVSS(run *ev.Run, n, t, depth int) {
 			}
 		}
 	})
-	run.Set(fmt.Sprintf("plainvss_n%d_t%d_outcomes", n, t), outcomes)
+	run.Set(fmt.Sprintf("plainvss_n%d_t%d_me%d_dealer%d_outcomes", n, t, me, dealerIdx), outcomes)
 	run.Sample(map[string]any{"kind": "plain-vss-history", "n": n, "t": t, "history": []string{"vec:short", "share:honest"}, "expected": "End() = DKG failure, no panic"})
 }
 
